@@ -136,3 +136,9 @@ pub(super) fn zippy_tick(_caps_word_is_active: bool) {
         zch().zch_tick(_caps_word_is_active)
     }
 }
+
+/// Verification hook: render the dynamic part of the process-global zippychord state.
+#[cfg(all(feature = "verif", feature = "zippychord"))]
+pub(super) fn verif_zippy_digest(out: &mut String) {
+    zch().verif_digest(out)
+}
